@@ -9,7 +9,7 @@ from ..absval import EnumV, Opaque, Text
 from ..core import Run
 from ..filetypestate import COMPILER, NOTE, run_file_typestate, run_handler, set_state_fields, state_fields, token_literal
 from ..grammar import FILE_LEXER, FILE_LISTENER, LexerGrammar, listener_methods
-from ..listener import snap, texts_in
+from ..listener import labels_in, snap, texts_in
 from ..pymodel import PyModel, walk_no_nested
 
 FILE = "src/zorg/service/compiler/_file_compiler.py"
@@ -41,6 +41,9 @@ def check(run: Run) -> None:
     run.rule("C01.R3", "kind table: todo_prefix tokens <-> enterTodo_prefix branches <-> NoteType values is a bijection; a '-' item has no todo payload")
     run.rule("C01.R4", "per-item typestate: kind, priority, ZID, dates, line number and body of a constructed note carry only provenance of the current item (or the constant default)")
     run.rule("C01.R5", "look-alike words: todo_prefix unreachable in bodies, the priority alternative of unquoted_word is shadowed, ids from the third on (second without modify date) write nothing")
+    from ..daterules import century_rule
+
+    century_rule(run, model, "C01.R4")
     ts = run_file_typestate(run.repo, model)
     g = ts.grammar
     for w in ts.imprecise:
@@ -203,46 +206,131 @@ def check(run: Run) -> None:
               "grammar: a todo prefix can be derived inside a note body", file="src/zorg/grammar/zorg_file/ZorgFileParser.py")
     run.check("C01.R5", "the priority alternative of unquoted_word is shadowed by id_group", ("unquoted_word", "priority") in set(map(tuple, ts.dead_edges)), "ZorgFileParser",
               "unquoted_word -> priority is live", "grammar: a Pn word inside a body is parsed as `priority` and changes the todo's priority", file="src/zorg/grammar/zorg_file/ZorgFileParser.py")
-    # enterId on later ids writes nothing
-    for k, md, expect_write in ((2, None, False), (3, None, False), (3, ("opaque", "date", "ITEM"), False), (2, ("opaque", "date", "ITEM"), True)):
-        tree = set_state_fields(ts.tree0, in_note=True, in_first_comment=False, ids_in_note=k - 1, modify_date=md, zid=None, note_date=None)
-        before = state_fields(tree)
-        wrote = set()
-        for v, s, root in run_handler(ts, model, "enterId", "id", "ITEM", tree):
-            if isinstance(v, Raised):
-                continue
-            after = state_fields(snap(root, s))
-            for f in ("zid", "modify_date", "note_date"):
-                if after.get(f) != before.get(f):
-                    wrote.add(f)
-        label = f"id #{k} {'after a modify date' if md else 'without modify date'}"
-        if expect_write:
-            run.check("C01.R5", f"{label} may be the ZID", "zid" in wrote and "modify_date" not in wrote, "enterId", f"{label}: writes {sorted(wrote)}",
-                      f"{label} writes {sorted(wrote)}: expected the ZID (and create date) only", file=FILE)
-        else:
-            run.check("C01.R5", f"{label} changes neither ZID nor dates", not wrote, "enterId", f"{label}: writes {sorted(wrote)}",
-                      f"{label} (a word that merely looks like a date/ZID) overwrites {sorted(wrote)} of the note", file=FILE)
-    # enterDate only for the first id
-    for k in (2, 3):
-        tree = set_state_fields(ts.tree0, in_note=True, in_first_comment=False, ids_in_note=k, note_date=None)
-        before = state_fields(tree)
-        wrote = set()
-        for v, s, root in run_handler(ts, model, "enterDate", "date", "ITEM", tree):
-            if not isinstance(v, Raised):
-                after = state_fields(snap(root, s))
-                wrote |= {f for f in after if after[f] != before.get(f)}
-        run.check("C01.R5", f"a YYYY-MM-DD word as id #{k} is not the create date", not wrote, "enterDate", f"id #{k}: writes {sorted(wrote)}",
-                  f"a long date that is word #{k} of an item overwrites {sorted(wrote)}", file=FILE)
-    # ids are counted wherever they occur in the item (quoted or not): the position counter is what makes "first" mean first
-    for flag in (True, False):
-        tree = set_state_fields(ts.tree0, in_note=True, in_first_comment=False, ids_in_note=0, in_quoted_word=flag)
-        counts = set()
-        for v, s, root in run_handler(ts, model, "enterId", "id", "ITEM:Q" if flag else "ITEM", tree):
-            if not isinstance(v, Raised):
-                counts.add(state_fields(snap(root, s)).get("ids_in_note"))
-        run.check("C01.R5", f"every id of an item advances the position counter (quoted={flag})", counts == {1}, "enterId", f"quoted={flag}: counter {sorted(map(str, counts))}",
-                  f"an id {'inside a quoted word ' if flag else ''}does not advance ids_in_note ({sorted(map(str, counts))}): the NEXT word is then treated as the item's first word "
-                  "and a look-alike date/ZID in the body changes the note's identity", file=FILE)
+    id_scenarios(run, ts, model)
+    id_scenarios(run, ts, model, quoted_first=True, dates=False)
     run.units = dict(typestate=ts.stats, handlers=n_over, note_events=len(ts.notes), shadowed_alternatives=[list(x) for x in ts.dead_edges])
     run.trusted = ["CPython ast", "antlr4 ATNDeserializer", "ParseTreeWalker contract", "ANTLR resolves ambiguity to the lowest alternative"]
     run.assumptions += ["notes appear in file order and bodies are verbatim: properties of the ANTLR runtime/getText, not decided", "creation date = today() fallback is a run-time value"]
+
+
+def _chain(ts, model, tree, steps):
+    """Run listener methods in walker order on one abstract state; a missing override is the inherited no-op."""
+    from ..filetypestate import COMPILER
+
+    for method, rule, label in steps:
+        if f"{COMPILER}.{method}" not in model.funcs:
+            continue
+        res = [(v, s, root) for v, s, root in run_handler(ts, model, method, rule, label, tree) if not isinstance(v, Raised)]
+        trees = {snap(root, s) for v, s, root in res}
+        if len(trees) != 1:
+            return None
+        tree = trees.pop()
+    return tree
+
+
+def _answers(s) -> dict:
+    out = {}
+    for (tid, name), val in ((k, v) for k, v in s.facts.items() if len(k) == 2):
+        if name in ("is_short_date_spec", "is_zid", "is_long_date_spec"):
+            if name in out and out[name] != val:
+                out[name] = "mixed"
+            else:
+                out[name] = val
+    return out
+
+
+def id_scenarios(run: Run, ts, model: PyModel, quoted_first: bool = False, dates: bool = True) -> None:
+    """Which id-like word of an item may reach the note: scenarios built from the listener's own methods
+    (enterItem, enterBase_note, then enterId per word with distinct provenance labels), so the rule does not
+    depend on how the state object names its fields.  The recognisers are uninterpreted predicates whose
+    answers index the scenario."""
+    pre = _chain(ts, model, ts.tree0, [("exitComment", "comment", "HEAD"), ("exitHead", "head", "HEAD"), ("enterItem", "item", "ITEM0"), ("enterBase_note", "base_note", "ITEM0")])
+    if pre is None:
+        run.undecided("C01.R5", "enterItem/enterBase_note", "cannot establish the state at the start of an item body")
+        return
+    IDS = ("ID1", "ID2", "ID3")
+    tag = " (first word quoted)" if quoted_first else ""
+    frontier = [(pre, ())]
+    for k in (1, 2, 3):
+        nxt = {}
+        if quoted_first and k in (1, 2):
+            # ids are counted wherever they occur in the item: a quoted first word still is the first word
+            step = ("enterQuoted_word", "quoted_word", "ID1") if k == 1 else ("exitQuoted_word", "quoted_word", "ID1")
+            frontier = [(t2, h) for t, h in frontier for t2 in [_chain(ts, model, t, [step])] if t2 is not None]
+        for tree, hist in frontier:
+            for v, s, root in run_handler(ts, model, "enterId", "id", IDS[k - 1], tree):
+                if isinstance(v, Raised):
+                    continue  # strptime on a non-date: C08's subject
+                if s.imprecise:
+                    run.undecided("C01.R5", "enterId", "; ".join(s.imprecise[:2]))
+                    return
+                a = _answers(s)
+                key = (snap(root, s), hist + ((a.get("is_short_date_spec"), a.get("is_zid")),))
+                nxt[key] = True
+        frontier = list(nxt)
+        if len(frontier) > 400:
+            run.undecided("C01.R5", "enterId", "scenario explosion")
+            return
+    n = 0
+    for tree, hist in frontier:
+        n += 1
+        present = labels_in(tree) & set(IDS)
+        (sd1, z1), (sd2, z2), (sd3, z3) = hist
+        desc = " ; ".join(f"word {i + 1}: YYMMDD={h[0]} ZID={h[1]}" for i, h in enumerate(hist))
+        exp = set()
+        if sd1 is True or z1 is True:
+            exp.add("ID1")
+        if sd1 is True and z2 is True:
+            exp.add("ID2")
+        if "mixed" in (sd1, z1, sd2, z2, sd3, z3):
+            run.undecided("C01.R5", "enterId", "recogniser consulted twice with different answers")
+            continue
+        extra, missing = present - exp, exp - present
+        what = []
+        if "ID3" in extra:
+            what.append("the third id-like word of an item reaches the note's identity/dates")
+        if "ID2" in extra:
+            what.append("the second id-like word is taken as ZID/date although the first word was not a YYMMDD modify date")
+        if "ID1" in extra:
+            what.append("the first word reaches the note although neither recogniser accepted it")
+        if "ID1" in missing:
+            what.append("the first word was recognised (modify date or ZID) but does not reach the note")
+        if "ID2" in missing:
+            what.append("a ZID that follows the YYMMDD modify date does not reach the note")
+        run.check("C01.R5", f"id words{tag} [{desc}] -> provenance {sorted(exp)}", not what, "enterId", f"[{desc}] -> {sorted(present)}",
+                  "; ".join(what) + f" (scenario {desc}; words reaching the state: {sorted(present)}, expected {sorted(exp)})", file=FILE, node=model.func("zorg.service.compiler._file_compiler.ZorgFileCompiler.enterId").node)
+    run.floor("id-word scenarios" + tag, n, 4)
+    if not dates:
+        return
+    # a long date is the create date only as the first id word
+    for k in (1, 2, 3):
+        frontier = [pre]
+        ok_chain = True
+        for j in range(1, k + 1):
+            nxt = set()
+            for tree in frontier:
+                for v, s, root in run_handler(ts, model, "enterId", "id", IDS[j - 1], tree):
+                    a = _answers(s)
+                    if isinstance(v, Raised) or a.get("is_short_date_spec") is True or a.get("is_zid") is True:
+                        continue  # the word is YYYY-MM-DD (or a plain word before it): neither recogniser accepts it
+                    nxt.add(snap(root, s))
+            frontier = list(nxt)
+        wrote = set()
+        nres = 0
+        for tree in frontier:
+            for v, s, root in run_handler(ts, model, "enterDate", "date", "DATE" + str(k), tree):
+                if isinstance(v, Raised):
+                    continue
+                a = _answers(s)
+                if a.get("is_long_date_spec") is False:
+                    continue
+                nres += 1
+                if ("DATE" + str(k)) in labels_in(snap(root, s)):
+                    wrote.add(k)
+        if not nres:
+            run.undecided("C01.R5", "enterDate", f"no result for a long date as id #{k}")
+        elif k == 1:
+            run.check("C01.R5", "a YYYY-MM-DD first word is the note's create date", wrote == {1}, "enterDate", "id #1: not recorded", "a long date as first word of an item is not recorded as its create date", file=FILE)
+        else:
+            run.check("C01.R5", f"a YYYY-MM-DD word as id #{k} is not the create date", not wrote, "enterDate", f"id #{k}: reaches the state",
+                      f"a long date that is word #{k} of an item reaches the note's dates", file=FILE)
